@@ -764,7 +764,25 @@ def rule_R8i(text, log, helper_body=None):
         text = text[:mm.start()] + after + text[cl + 1:]
 
 
-RULES = {'R8i': rule_R8i, 'R9': rule_R9, 'R3c': rule_R3c, 'R19p': rule_R19p, 'R4e': rule_R4e, 'R4f': rule_R4f, 'R19': rule_R19, 'R9b': rule_R9b, 'R18': rule_R18, 'R4b': rule_R4b, 'R4c': rule_R4c, 'R4d': rule_R4d, 'R9c': rule_R9c, 'R16': rule_R16, 'R5': rule_R5, 'R15': rule_R15, 'R6bp': rule_R6bp,
+def rule_R4g(text, log):
+    """for (K, V) in M { B }  (M: &serde_json::Map)  ==>  { let mut im__ = 0; while im__ < M.len() { let (K, V) = M.entry(im__); B im__ += 1; } }
+    (IntoIterator for &Map yields the entries in order)"""
+    while True:
+        hit = None
+        for (s0, pat, expr, bo, bc) in _for_loops(text):
+            if re.fullmatch(r'\(\s*' + IDENT + r'\s*,\s*' + IDENT + r'\s*\)', pat) and re.fullmatch(IDENT, expr):
+                hit = (s0, pat, expr, bo, bc)
+                break
+        if not hit:
+            return text
+        s0, pat, expr, bo, bc = hit
+        body = text[bo + 1:bc]
+        after = '{ let mut im__: usize = 0; while im__ < %s.len() { let %s = %s.entry(im__);%s im__ += 1; } }' % (expr, pat, expr, body)
+        log.append(dict(rule='R4g', before='for %s in %s { ... }' % (pat, expr), after='{ let mut im__: usize = 0; while im__ < %s.len() { let %s = %s.entry(im__); ... im__ += 1; } }' % (expr, pat, expr)))
+        text = text[:s0] + after + text[bc + 1:]
+
+
+RULES = {'R4g': rule_R4g, 'R8i': rule_R8i, 'R9': rule_R9, 'R3c': rule_R3c, 'R19p': rule_R19p, 'R4e': rule_R4e, 'R4f': rule_R4f, 'R19': rule_R19, 'R9b': rule_R9b, 'R18': rule_R18, 'R4b': rule_R4b, 'R4c': rule_R4c, 'R4d': rule_R4d, 'R9c': rule_R9c, 'R16': rule_R16, 'R5': rule_R5, 'R15': rule_R15, 'R6bp': rule_R6bp,
     'R1': rule_R1, 'R2': rule_R2, 'R3': rule_R3, 'R3b': rule_R3b, 'R4': rule_R4,
     'R6': rule_R6, 'R6b': rule_R6b, 'R6c': rule_R6c,
 }
